@@ -40,6 +40,8 @@ pub enum KeyTy {
     UnitVariant(String, Vec<String>),
     /// newtype struct around String
     NewtypeStr(String),
+    /// reader only: `Spanned<String>` as the key type
+    SpannedStr,
     I64,
     Bool,
     Char,
